@@ -70,18 +70,20 @@ def parse_q(s: str) -> Fraction:
 class Driver:
     """Batch interface to the native Lean model driver."""
 
-    def __init__(self):
-        if not DRIVER.exists():
-            ensure_built()
-        if not DRIVER.exists():
-            raise Infra(f"model driver missing: {DRIVER}")
+    def __init__(self, exe="hdc-driver", rebuild=False):
+        """`rebuild`: run `lake build <exe>` first (a no-op when up to date) - for a driver that contains a generated model"""
+        self.path = DRIVER.parent / exe
+        if rebuild or not self.path.exists():
+            ensure_built(exe)
+        if not self.path.exists():
+            raise Infra(f"model driver missing: {self.path}")
 
     def ask(self, lines: list[str], timeout=900) -> list[str]:
         if not lines:
             return []
         data = "\n".join(lines) + "\n"
         try:
-            r = subprocess.run([str(DRIVER)], input=data, capture_output=True, text=True, timeout=timeout)
+            r = subprocess.run([str(self.path)], input=data, capture_output=True, text=True, timeout=timeout)
         except subprocess.TimeoutExpired as e:
             raise Infra("driver timeout") from e
         out = r.stdout.split("\n")
@@ -145,23 +147,58 @@ class _Lock:
         self.f.close()
 
 
+# translator script -> generated modules it is responsible for when it fails as a whole
+TRANSLATORS = {
+    "translate_dekad.py": ["Hdc.Gen.Dekad"],
+    "summarise_effects.py": ["Hdc.Gen.Effects"],
+    "translate_ws2d.py": ["Hdc.Gen.Ws2d"],
+    "py2lean.py": [],          # per-kernel outputs: failures are reported as `FAILED <module>: reason`
+    "py2lean_num.py": [],
+}
+
+
 def regenerate():
-    """Regenerate Hdc/Gen/* from /repo's working tree (translators). Returns (ok, log)."""
-    ok, log = True, ""
-    for name in ("translate_dekad.py", "summarise_effects.py", "translate_ws2d.py", "py2lean.py", "py2lean_num.py"):
+    """Regenerate Hdc/Gen/* from /repo's working tree (translators).  Returns (failed, log): failed maps a generated module whose
+    translation failed (its file on disk is stale) to the reason.  A property is affected only if its theorem modules import it."""
+    failed, log = {}, ""
+    for name, outs in TRANSLATORS.items():
         tr = ROOT / "harness" / name
         if tr.exists():
             r = subprocess.run([sys.executable, str(tr)], capture_output=True, text=True)
-            log += (r.stdout + r.stderr)[-1500:]
-            ok = ok and r.returncode == 0
-    return ok, log
+            out = r.stdout + r.stderr
+            log += out[-1500:]
+            hits = re.findall(r"^FAILED (\S+): (.*)$", out, flags=re.M)
+            for m, why in hits:
+                failed[m] = why[:300]
+            if r.returncode != 0 and not hits:
+                for m in outs or ["Hdc.Gen.?" + name]:
+                    failed[m] = out.strip()[-300:]
+    return failed, log
 
 
-def ensure_built():
+def _imports(mod: str):
+    p = LEAN / (mod.replace(".", "/") + ".lean")
+    if not p.exists():
+        return []
+    return [m for m in re.findall(r"^import\s+(\S+)", p.read_text(), flags=re.M) if m.startswith("Hdc.")]
+
+
+def gen_closure(mods):
+    """generated modules (Hdc.Gen.*) in the import closure of the given modules"""
+    seen, st = set(), list(mods)
+    while st:
+        m = st.pop()
+        if m not in seen:
+            seen.add(m)
+            st += _imports(m)
+    return {m for m in seen if m.startswith("Hdc.Gen.")}
+
+
+def ensure_built(exe="hdc-driver"):
     with _Lock():
-        r = _lake(["build", "hdc-driver"])
+        r = _lake(["build", exe])
         if r.returncode != 0:
-            raise Infra("cannot build model driver:\n" + (r.stdout + r.stderr)[-2000:])
+            raise Infra(f"cannot build {exe}:\n" + (r.stdout + r.stderr)[-2000:])
 
 
 def obligations_for(pid: str) -> dict:
@@ -180,9 +217,12 @@ def prove(pid: str, thorough=False) -> dict:
     if not thms:
         return res
     with _Lock():
-        ok, glog = regenerate()
-        if not ok:
-            res["broken"] = [(t, "translator failed: " + glog[-300:]) for t in thms]
+        failed, glog = regenerate()
+        hit = sorted(gen_closure(mods) & set(failed))
+        if any(k.startswith("Hdc.Gen.?") for k in failed):       # a translator without a declared output failed: be conservative
+            hit = hit or sorted(failed)
+        if hit:
+            res["broken"] = [(t, f"translator failed for {hit[0]}: {failed[hit[0]]}") for t in thms]
             res["log"] = glog
             return res
         r = _lake(["build", "hdc-driver", *mods])
